@@ -416,7 +416,7 @@ func (s *Sched) Run() {
 	for s.live > 0 {
 		synctest.Wait()
 		s.drain()
-		if s.live == 0 {
+		if s.live == 0 || s.abort.Load() {
 			break
 		}
 		if s.Steps > s.MaxSteps {
@@ -454,10 +454,18 @@ func (s *Sched) Run() {
 			s.tick(minSleep) // fast-forward the step clock
 		case blockedInLib > 0:
 			// everybody is blocked in a library call (pipe, timer): let fake time advance
+			wait := 24 * time.Hour
+			if nSleep > 0 {
+				wait = 50 * time.Millisecond // step-clock sleepers exist: do not let the fake clock run away
+			}
 			select {
 			case t := <-s.parkCh:
 				s.note(t)
-			case <-time.After(24 * time.Hour):
+			case <-time.After(wait):
+				if nSleep > 0 {
+					s.tick(minSleep)
+					continue
+				}
 				s.Deadlock = "stall: no task became runnable within 24 h of simulated time; " + s.Where()
 				s.abortAll()
 				return
@@ -471,6 +479,16 @@ func (s *Sched) Run() {
 	if s.Deadlock != "" {
 		s.abortAll()
 	}
+}
+
+// TaskByPrefix returns the first live task whose name starts with prefix.
+func (s *Sched) TaskByPrefix(prefix string) *Task {
+	for _, t := range s.tasks {
+		if t.wake != nil && len(t.Name) >= len(prefix) && t.Name[:len(prefix)] == prefix {
+			return t
+		}
+	}
+	return nil
 }
 
 // ParkedAt reports whether some task is parked at a label with the given substring.
@@ -526,6 +544,14 @@ func (s *Sched) abortAll() {
 // Abort ends the run early (violation found): parked tasks are released with the
 // abort flag; tasks blocked in library calls abort at their next yield.
 func (s *Sched) Abort() { s.abortAll() }
+
+// Fail stops the run with a liveness verdict (reported through Deadlock).
+func (s *Sched) Fail(msg string) {
+	if s.Deadlock == "" {
+		s.Deadlock = msg
+	}
+	s.abortAll()
+}
 
 // Aborted reports whether the scheduler was told to stop.
 func (s *Sched) Aborted() bool { return s.abort.Load() }
